@@ -722,7 +722,11 @@ func (p *pipeGen) compositeCase() {
 		base = base[len(base)-1:]
 	}
 	parent := base[1:]
-	child := append([][]byte{genLabel(r)}, base...)
+	cl := genLabel(r)
+	if room := 255 - len(wireOf(base)) - 1; len(cl) > room {
+		cl = cl[:room] // a wire name has at most 255 octets: longer names are not questions any parser hands over
+	}
+	child := append([][]byte{cl}, base...)
 	sibling := oneByte(r, base)
 	// a single label that CONTAINS a dot: x\.<parent> is not below <parent's first label>…
 	var glued [][]byte
@@ -793,6 +797,9 @@ func (p *pipeGen) compositeCase() {
 				}
 				c.scope = sc
 				p.op("pipe fget %s %s", route, c.tok())
+				if route == "msg" {
+					p.op("pipe fget store %s", c.tok())
+				}
 			}
 		}
 	}
@@ -1234,6 +1241,13 @@ func (p *pipeGen) failedResolutionCase() {
 	p.op("pipe get store %s -", q(g))
 	p.op("pipe fget wire %s,-", q(g))
 	p.op("pipe fget msg %s,%s", q(g), fmtScope(a))
+	// the Store wrapper, in both partitions and for the other audiences
+	tw := g
+	tw.cd = !g.cd
+	p.op("pipe fget store %s,%s", q(g), fmtScope(a))
+	p.op("pipe fget store %s,%s", q(tw), fmtScope(a))
+	p.op("pipe fget store %s,-", q(tw))
+	p.getAll(tw, netip.Prefix{})
 	m, _ := mutate(r, g, p.cycle([]string{"cd", "type", "class", "byte", "child"}))
 	p.op("pipe get %s %s %s", route(), q(m), fmtScope(a))
 	// the same audience resolves fine later: the answer resets its own failure only
@@ -1467,14 +1481,25 @@ func genL3(r *vlib.R, emit func(string), k int) int {
 		} else if r.Bool() {
 			d = withBits(a, full)
 		}
-		emit(fmt.Sprintf("l3 sf %s %s %s", fmtScope(a), fmtScope(b), fmtScope(d)))
+		if r.Chance(1, 3) {
+			d = netip.Prefix{} // a later client that discloses no subnet
+		}
+		// the SCOPE the authority declares, relative to the SOURCE it is sent: equal, longer (RFC 7871 §7.1.2
+		// forbids it, some do it), shorter, zero
+		sc := []int{0, 8, -4, 1, 0, full, -8, -full}[(i+int(r.U64()%8))%8]
+		if i%3 == 1 {
+			sc = []int{8, 1, full}[i/3%3]
+			// an outsider asks afterwards: another network of the same length, or nobody's subnet
+			d = vlib.Pick(r, []netip.Prefix{withBits(flipBit(a, r.Intn(la)), la), {}})
+		}
+		emit(fmt.Sprintf("l3 sf %s %s %s sc=%d", fmtScope(a), fmtScope(b), fmtScope(d), sc))
 	}
 	return k + 1
 }
 
 func gen(r *vlib.R, n int, tier string, emit func(string)) {
 	n -= genExhaustive(emit)
-	n -= genL3(r, emit, map[bool]int{true: 24, false: 6}[tier == "thorough"])
+	n -= genL3(r, emit, map[bool]int{true: 30, false: 12}[tier == "thorough"])
 	sweep := int(r.U64() % 256)
 	p := &pipeGen{r: r, emit: emit}
 	for n > 0 {
